@@ -38,6 +38,14 @@ func main() {
 	}
 	suffix = "/after-use-as-operands"
 	run(r)
+	// every constant-consulting routine on its mathematically exceptional inputs, then the enumeration again
+	nExc := exceptionalCases()
+	r.Observe("exceptional-case-operations", nExc)
+	if exceptionalDamagedBy != "" {
+		r.Violate("constant/modified-by-exceptional-case", "a shared constant changed while the library handled an exceptional input: "+exceptionalDamagedBy, Entry{"exceptional case: " + exceptionalDamagedBy})
+	}
+	suffix = "/after-exceptional-cases"
+	run(r)
 	// the tables while other goroutines use them, then the enumeration a last time
 	inUse(r)
 	suffix = "/after-concurrent-use"
